@@ -90,7 +90,7 @@ func c13ModelProfPlans(r *h.Result, rng *h.Rng, n int) error {
 		var err error
 		var op, kind string
 		bg := context.Background()
-		switch i % 6 {
+		switch i % 8 {
 		case 0:
 			kind = "merge-profiles"
 			sel, err = prof.PlanMergeProfiles(bg, script, &tid, f, t, db)
@@ -125,6 +125,24 @@ func c13ModelProfPlans(r *h.Result, rng *h.Rng, n int) error {
 				sl = "NOSEL"
 			}
 			op = fmt.Sprintf("c13profplan series %s %s %s", ctxS, c13pHexList(ls), sl)
+		case 6, 7:
+			// LabelNames / LabelValues with one or two selector sets: fp = the union of their selector statements
+			kind = "labels-union"
+			scripts := []*profparser.Script{script}
+			sers := []string{c13pSer(sels)}
+			if rng.Bool() {
+				s2 := c13pSel{h.Pick(rng, c17Names), h.Pick(rng, []string{"=", "=~"}), h.Pick(rng, c17Regex)}
+				scripts = append(scripts, &profparser.Script{Selectors: []profparser.Selector{{Name: s2.Name, Op: s2.Op, Val: profparser.Str{Str: strconv.Quote(s2.Val)}}}})
+				sers = append(sers, c13pSer([]c13pSel{s2}))
+			}
+			if i%8 == 6 {
+				sel, err = prof.PlanLabelNames(bg, scripts, f, t, db)
+				op = fmt.Sprintf("c13profplan labelsunion %s %s NONE %s", ctxS, hx("key"), strings.Join(sers, "|"))
+			} else {
+				l := h.Pick(rng, []string{"job", "a'b", ""})
+				sel, err = prof.PlanLabelValues(bg, scripts, l, f, t, db)
+				op = fmt.Sprintf("c13profplan labelsunion %s %s %s %s", ctxS, hx("val"), hx(l), strings.Join(sers, "|"))
+			}
 		case 4:
 			kind = "label-names"
 			sel, err = prof.PlanLabelNames(bg, nil, f, t, db)
